@@ -14,6 +14,8 @@ PID = "C15"
 INF = float("inf")
 CRITS = ["ratio", "ratio_ns", "Z_err", "log_dZ", "ess", "fractional_error"]
 ALPH = [0.05, 0.1, 0.5, 1.0, 2.0, 5.0]
+TY_S = "scfg * sst * list (list Z * list (Z * Z) * option (option sobs))"
+TY_I = "icfg * ist * list (list (list Z * nat * list Z) * option (option iobs))"
 
 
 def unnum(x):
@@ -673,9 +675,15 @@ def criteria_cases(r):
 
         add(f"CLogZ {nm} {dy(e['log_evidence'])}", "log Z")
         add(f"CEss {nm} {dy(a['ess'])}", "ess")
+        if "ess_stats" in e:
+            add(f"CEss {nm} {dy(e['ess_stats'])}", "utils.stats.effective_sample_size")
         add(f"CFrac {nm} {dy(a['fractional_error'])}", "fractional_error")
         add(f"CFrac {nm} {dy(e['log_evidence_error'])}", "log_evidence_error")
-        add(f"CZerrCode {nm} {dy(a['Z_err'])}", "Z_err (as coded)")
+        u, zhat = u_from_samples([unnum(v) for v in e["logL"]], [unnum(v) for v in e["logW"]])
+        if abs(unnum(a["Z_err"]) - u) <= abs(unnum(a["Z_err"]) - math.exp(u / zhat)):
+            add(f"CU {nm} {dy(a['Z_err'])}", "Z_err (= evidence error)")
+        else:
+            add(f"CZerrCode {nm} {dy(a['Z_err'])}", "Z_err (as coded)")
         if above:
             add(f"CRatio {cL(above)} {nm} {dy(a['ratio'])}", "ratio")
         if live and nest:
@@ -697,10 +705,10 @@ def child_json(chk, job, timeout):
         return None, f"unparsable child output: {e}: {out[-300:]}"
 
 
-def coq_mism(chk, name, hdr, chkfn, lits, what, shard=400, cmd="mism"):
+def coq_mism(chk, name, hdr, chkfn, lits, what, ty, shard=400, cmd="mism"):
     bad, ok_all, errs = [], True, ""
     for k in range(0, len(lits), shard):
-        txt = hdr + f"Definition cs := {cL(lits[k:k + shard])}.\nEval vm_compute in ({cmd} {chkfn} cs).\n"
+        txt = hdr + f"Definition cs : list ({ty}) := {cL(lits[k:k + shard])}.\nEval vm_compute in ({cmd} {chkfn} cs).\n"
         ok, evals, err = chk.coq_run(f"{name}_{k}", txt, timeout=900)
         if not ok or len(evals) != 1:
             ok_all, errs = False, err
@@ -740,6 +748,7 @@ def ins_run_cfgs(tier, seed, base):
     common_kw = {"nlive": 40, "seed": seed}
     cfgs = [
         dict(common_kw, name="ratio_eq", tolerance=jnum(a[k]["ratio"]), stopping_criterion="ratio_all", max_iteration=6),
+        dict(common_kw, name="default_tol", max_iteration=6),
         dict(common_kw, name="min_it", tolerance=jnum(a[0]["ratio"]), stopping_criterion="ratio", min_iteration=3, max_iteration=6),
         dict(common_kw, name="any2", stopping_criterion=["log_evidence", "ratio"],
              tolerance=[jnum(a[min(1, len(a) - 1)]["log_dZ"]), -50.0], check_criteria="any", max_iteration=6),
@@ -788,8 +797,8 @@ def run(chk):
             "configure": gen_configure(rng, 200 if quick else 1500, rows),
             "finalise": gen_finalise(rng, 100 if quick else 600),
             "zerr": [{"logL": [rng.uniform(-6, 0) for _ in range(30)], "logW": [rng.uniform(-1, 1) for _ in range(30)], "tol": 0.5}]}
-    std_base = {"mode": "std", "root": root, "runs": [{"name": "base", "nlive": 50, "seed": seed, "max_iteration": 60}]}
-    ins_base = {"mode": "ins", "root": root, "runs": [{"name": "base", "nlive": 40, "seed": seed,
+    std_base = {"mode": "std", "root": root + "_std", "runs": [{"name": "base", "nlive": 50, "seed": seed, "max_iteration": 60}]}
+    ins_base = {"mode": "ins", "root": root + "_ins", "runs": [{"name": "base", "nlive": 40, "seed": seed, "tolerance": -50.0,
                                                        "max_iteration": 5 if quick else 8, "keep_samples": True}]}
     with concurrent.futures.ThreadPoolExecutor(max_workers=4) as ex:
         f_s = ex.submit(child_json, chk, sjob, 900)
@@ -805,10 +814,10 @@ def run(chk):
         f2 = f3 = None
         if bres is not None and "error" not in bres["runs"][0]:
             std_runs.append(bres["runs"][0])
-            f2 = ex.submit(child_json, chk, {"mode": "std", "root": root, "runs": std_run_cfgs(chk.tier, seed, bres["runs"][0])}, 1500)
+            f2 = ex.submit(child_json, chk, {"mode": "std", "root": root + "_std", "runs": std_run_cfgs(chk.tier, seed, bres["runs"][0])}, 1500)
         if ires is not None and "error" not in ires["runs"][0]:
             ins_runs.append(ires["runs"][0])
-            f3 = ex.submit(child_json, chk, {"mode": "ins", "root": root, "runs": ins_run_cfgs(chk.tier, seed, ires["runs"][0])}, 1500)
+            f3 = ex.submit(child_json, chk, {"mode": "ins", "root": root + "_ins", "runs": ins_run_cfgs(chk.tier, seed, ires["runs"][0])}, 1500)
         # ---- scripted part while the boundary runs are going ------------------------------------------
         if sres is not None:
             scripted(chk, sjob, sres, gen, rows)
@@ -835,7 +844,7 @@ def scripted(chk, job, res, gen, rows):
     coq_mism(chk, "shist", hdr, "(chk_shist gen_ssk)", lits,
              "histories of run() calls on the real NestedSampler.initialise / nested_sampling_loop / finalise (scripted "
              "body) = model s_run over the regenerated skeleton: bodies executed, condition, iteration, finalised, live "
-             "points, nested samples, raised / wants-more")
+             "points, nested samples, raised / wants-more", TY_S)
     for i in range(0, len(lits), max(1, len(lits) // 2)):
         chk.sample({"scripted_standard_history": job["std"][i], "observed": res["std"][i]})
     # ---- importance histories -----------------------------------------------------------------------
@@ -849,7 +858,7 @@ def scripted(chk, job, res, gen, rows):
     chk.evaluations += len(lits)
     coq_mism(chk, "ihist", hdr, "(chk_ihist gen_isk)", lits,
              "histories of the real ImportanceNestedSampler.nested_sampling_loop (real reached_tolerance, configure_*, "
-             "finalise; scripted body) = model i_run over the regenerated skeleton")
+             "finalise; scripted body) = model i_run over the regenerated skeleton", TY_I)
     if job["ins"]:
         chk.sample({"scripted_importance_history": job["ins"][0], "observed": res["ins"][0]})
     # ---- reached_tolerance ----------------------------------------------------------------------------
@@ -865,7 +874,7 @@ def scripted(chk, job, res, gen, rows):
         lits.append(cT(cB(c["any"]), cL(map(key, c["crit"])), cL(map(key, c["tol"])), cB(o["reached"])))
     chk.evaluations += len(lits)
     coq_mism(chk, "reached", hdr, "(chk_reached gen_reached)", lits,
-             "the real reached_tolerance property = regenerated gen_reached", shard=1000)
+             "the real reached_tolerance property = regenerated gen_reached", "bool * list Z * list Z * bool", shard=1000)
     # ---- configure_stopping_criterion ------------------------------------------------------------------
     lits = []
     for c, o in zip(job["configure"], res["configure"]):
@@ -892,7 +901,7 @@ def scripted(chk, job, res, gen, rows):
     chk.evaluations += len(lits)
     coq_mism(chk, "configure", hdr, "(chk_resolve gen_aliases)", lits,
              "the real configure_stopping_criterion (every alias alone + mixes + unknown names) = model resolve over the "
-             "regenerated alias table", shard=1000)
+             "regenerated alias table", "list string * nat * option (list string)", shard=1000)
     # ---- finalise ---------------------------------------------------------------------------------------
     lits = []
     for c, o in zip(job["finalise"], res["finalise"]):
@@ -917,7 +926,8 @@ def scripted(chk, job, res, gen, rows):
                    "    && match s_live st with None => true | Some _ => false end end.\n")
     chk.evaluations += len(lits)
     coq_mism(chk, "finalise", hdr_f, "chk_fin", lits,
-             "the real NestedSampler.finalise on id lists = denotation of the regenerated effect list", shard=1000)
+             "the real NestedSampler.finalise on id lists = denotation of the regenerated effect list",
+             "option (list Z) * list Z * option (list Z)", shard=1000)
     # ---- D10: Z_err on a real integral state ---------------------------------------------------------------
     for c, o in zip(job["zerr"], res["zerr"]):
         check_zerr(chk, c, o)
@@ -954,7 +964,7 @@ def real(chk, std_runs, ins_runs, gen):
     if lits:
         coq_mism(chk, "real_std", hdr, "(chk_shist gen_ssk)", lits,
                  "real standard runs: the conditions recorded around consume_sample replayed through the model stop where "
-                 "the run stopped (run, run again, resume)")
+                 "the run stopped (run, run again, resume)", TY_S)
     lits = []
     defs = []
     for r in ins_runs:
@@ -970,7 +980,7 @@ def real(chk, std_runs, ins_runs, gen):
     if lits:
         coq_mism(chk, "real_ins", hdr, "(chk_ihist gen_isk)", lits,
                  "real importance runs: the criteria recorded around compute_stopping_criterion replayed through the model "
-                 "stop where the run stopped (run, run again, resume)")
+                 "stop where the run stopped (run, run again, resume)", TY_I)
     # ---- criteria recomputed from the samples, decided inside Coq with interval enclosures -------------------
     if ccases:
         chdr = ("From Coq Require Import List ZArith Bool.\nImport ListNotations.\n"
